@@ -8,7 +8,7 @@ SRC=$(readlink -f "$1"); NAME=$2; shift 2
 V=$(dirname "$(dirname "$(readlink -f "$0")")")
 W=/tmp/seedtest.$$
 cleanup() { git -C /repo worktree remove --force $W >/dev/null 2>&1; rm -rf $W; git -C /repo worktree prune; }
-trap cleanup EXIT INT TERM
+trap cleanup EXIT INT TERM PIPE HUP
 git -C /repo worktree add --detach $W HEAD >/dev/null 2>&1 || { echo "worktree failed"; exit 2; }
 T=$(basename "$(grep -l . $SRC/demo.rs)" .rs)
 cp $SRC/demo.rs $W/tests/seed_demo.rs
